@@ -311,6 +311,42 @@ def run(ctx, rep):
     rep.ob("R15.4", "AsyncResult.ready: True if ready, False if expired, else the flag after polling", not bad_r,
            "8 states agree" if not bad_r else "; ".join(bad_r[:2]), fr.loc, kind="table")
 
+    # the `error` property: asking whether the outcome is an exception is asking for the outcome - it looks (polls) like `ready`
+    # does, and answers for what has arrived by then
+    fer = arc.methods.get("error")
+    if fer is not None:
+        rep.analysed(fer)
+        bad_e = []
+        try:
+            for flag, is_exc in ((False, False), (True, False), (True, True)):
+                for arrives in (None, "value", "exception"):
+                    try:
+                        state = fresh_result()[0]
+                    except (MI.Raised, AnalysisError):
+                        state = {}
+                    state.update({"_is_ready": flag, "_is_exc": is_exc, TTL: "TTL", "_conn": "CONN"})
+                    polled = []
+
+                    def poll(*a, state=state, polled=polled, arrives=arrives):
+                        polled.append(a)
+                        if arrives and not state["_is_ready"]:
+                            state["_is_ready"] = True
+                            state["_is_exc"] = arrives == "exception"
+                    hooks = {"self._conn.poll_all": poll, "self._conn.serve": poll, "self._conn.poll": poll,
+                             "self.%s.expired" % TTL: lambda: False}
+                    try:
+                        got = MI.call_method(fer.node, state, [], {"__calls__": hooks, "__methods__": meths, "__max_iter__": 50})
+                    except MI.Raised as r_:
+                        got = "raises " + r_.name
+                    want = is_exc if flag else (arrives == "exception")
+                    if bool(got) is not want or isinstance(got, str):
+                        bad_e.append("outcome stored=%s, reply arriving while polling=%s: error is %r, expected %r (%d poll(s))" % (
+                            ("exception" if is_exc else "value") if flag else "none", arrives, got, want, len(polled)))
+        except AnalysisError as e_:
+            rep.undecided("R15.4", "AsyncResult.error model", str(e_))
+        rep.ob("R15.4", "AsyncResult.error: true iff the outcome - looked for like `ready` does - is an exception", not bad_e,
+               "9 states agree" if not bad_e else "; ".join(bad_e[:2]), fer.loc, kind="table")
+
     # ------------------------------------------------------------------ R15.5
     T = "rpyc.lib.Timeout"
     fx = ctx.func(T + ".expired")
